@@ -45,7 +45,7 @@ func (p *ParserZH) ParseAST(l *syntax.Lexer) (pg *syntax.Program, err error) {
 
 	// ensure there's no remaining token after parsing global block
 	if p.peek().Type != TypeEOF {
-		err = p.getInvalidSyntaxCurr()
+		err = p.getInvalidSyntaxPeek()
 	}
 	return
 }
